@@ -37,6 +37,12 @@ def swarm_weights(r: random.Random, families=None, always=()):
     return names, weights, sorted(enabled)
 
 
+def fault_arm(seed: int, share: float = 0.3, rate: float = 0.3) -> float:
+    """Fault-free and fault-injecting configurations are separate runs: `share` of the seeds inject storage faults into their
+    checkpoints (ENOSPC / EIO once or sticky, /dev/full, crash with a torn write), the others none."""
+    return rate if Streams(seed)("fault-arm").random() < share else 0.0
+
+
 def gen_history(seed: int, *, n_events, families=None, always=(), start=None, fault_rate=0.0,
                 src_fault_rate=0.0, ckpt=0.12, reopen=0.05, restart=0.03, observe=0.03, jump=0.02,
                 fork=0.01, every_event_ckpt=False, forms=("stream", "stream", "path", "dir", "path_keep"),
